@@ -301,12 +301,22 @@ def index(tree, i):
 # ------------------------------------------------------------------ sub-domains excluded because of reported findings
 
 def known_mjx_crash(c, gm=None):
-  """Candidate finding F2: cone=elliptic with constraint rows but no contact slot of condim>1 makes
-  solver._update_constraint index with jp.array([]) (float64) -> TypeError at trace time."""
+  """Returns a label if the model hits one of the reported MJX exceptions, else None.
+  F2 : cone=elliptic with constraint rows but no contact slot of condim>1: solver._update_constraint indexes with
+       jp.array([]) (float64) -> TypeError at trace time.
+  F15: touch sensor in a model with constraint rows but no contact slot: sensor.sensor_acc -> ValueError
+       'Need at least one array to concatenate'."""
   mujoco, mjx, jax, jp = mjxload.load()
+  if c.dx0 is None:
+    return None
   cone = int(c.mm.opt.cone)
-  return (cone == int(mujoco.mjtCone.mjCONE_ELLIPTIC) and c.dx0 is not None and c.dx0._impl.nefc > 0
-          and not np.any(np.asarray(c.dx0._impl.contact.dim) > 1))
+  if (cone == int(mujoco.mjtCone.mjCONE_ELLIPTIC) and c.dx0._impl.nefc > 0
+      and not np.any(np.asarray(c.dx0._impl.contact.dim) > 1)):
+    return 'finding:elliptic-without-frictional-contact-slot-TypeError'
+  if (c.dx0._impl.ncon == 0 and c.dx0._impl.nefc > 0 and c.mm.nsensor
+      and np.any(np.asarray(c.mm.sensor_type) == int(mujoco.mjtSensor.mjSENS_TOUCH))):
+    return 'finding:touch-sensor-without-contact-slot-ValueError'
+  return None
 
 
 def get_data_roundtrips_contacts(md):
